@@ -99,7 +99,16 @@ def build_graph(inst):
     if "gid" in inst:
         G.graph["id"] = inst["gid"]
     nw = inst.get("nw")
-    for i, v in enumerate(inst["nodes"]):
+    n_order, e_order = list(range(len(inst["nodes"]))), list(range(len(inst["edges"])))
+    if inst.get("order"):
+        # the same graph handed over in another insertion order of its nodes and edges (presentation only: the record, and
+        # with it everything the specification sees, is unchanged)
+        import random as _random
+        _r = _random.Random(inst["order"])
+        _r.shuffle(n_order)
+        _r.shuffle(e_order)
+    for i in n_order:
+        v = inst["nodes"][i]
         if nw and nw[i] != NONE:
             G.add_node(v, flow=val_of(nw[i], num, den, as_float))
         else:
@@ -108,7 +117,8 @@ def build_graph(inst):
             G.nodes[v]["length"] = inst["nlen"][i]
     ew = inst.get("ew")
     el = inst.get("elen")
-    for i, (u, v) in enumerate(inst["edges"]):
+    for i in e_order:
+        u, v = inst["edges"][i]
         attrs = {}
         if ew and ew[i] != NONE:
             attrs["flow"] = val_of(ew[i], num, den, as_float)
@@ -165,6 +175,10 @@ def build_kwargs(inst, G):
     if "plr" in inst:
         kw["path_length_ranges"] = [tuple(r) for r in inst["plr"]]
         kw["path_length_factors"] = [n / d if d != 1 else n for (n, d) in inst["plf"]]
+    if inst.get("ignpct", -1) >= 0:
+        kw["elements_to_ignore_percentile"] = inst["ignpct"]
+    if inst.get("trustpct", -1) >= 0:
+        kw["trusted_edges_for_safety_percentile"] = inst["trustpct"]
     if "opt" in inst:
         kw["optimization_options"] = dict(inst["opt"])
     so = {"threads": 1}
